@@ -418,3 +418,80 @@ func TestRegressSearchShortcuts(t *testing.T) {
 		t.Fatalf("searches return items that do not satisfy the conjunction:\n%s", bad)
 	}
 }
+
+// TestRegressReservedKeysInTxIndex: operands of another kind on the reserved keys must not crash a search
+// ("tx.height = 1.0", "block.height = 3.0", "tx.height = '1'", "tx.hash = 5"), a whole number written as a float
+// names the same height, and an application attribute called tx.height must not put the transaction under another
+// height.
+func TestRegressReservedKeysInTxIndex(t *testing.T) {
+	ctx := context.Background()
+	txIdx := txkv.NewTxIndex(dbm.NewMemDB())
+	res := mkTx(3, 0, "at-height-3", "n", "1")
+	res.Result.Events = append(res.Result.Events, abci.Event{Type: "tx", Attributes: []abci.EventAttribute{{Key: []byte("height"), Value: []byte("7"), Index: true}}})
+	if err := txIdx.Index(res); err != nil {
+		t.Fatal(err)
+	}
+	blkIdx := blockkv.New(dbm.NewMemDB())
+	if err := blkIdx.Index(types.EventDataNewBlockHeader{Header: types.Header{Height: 3}}); err != nil {
+		t.Fatal(err)
+	}
+	bad := ""
+	run := func(name, q string, want int, errOK bool, f func(*query.Query) (int, error)) {
+		defer func() {
+			if r := recover(); r != nil {
+				bad += fmt.Sprintf("  %s %s: panic: %v\n", name, q, r)
+			}
+		}()
+		n, err := f(query.MustParse(q))
+		if err != nil && errOK {
+			return
+		}
+		if err != nil || (want >= 0 && n != want) {
+			bad += fmt.Sprintf("  %s %s: %d results (%v), want %d\n", name, q, n, err, want)
+		}
+	}
+	tx := func(q *query.Query) (int, error) { r, err := txIdx.Search(ctx, q); return len(r), err }
+	blk := func(q *query.Query) (int, error) { r, err := blkIdx.Search(ctx, q); return len(r), err }
+	run("tx_search", "tx.height = 3.0", 1, false, tx)
+	run("tx_search", "tx.height = 3.5", 0, false, tx)
+	run("tx_search", "tx.height = '3'", -1, true, tx) // meaning not documented: any result or an error, no crash
+	run("tx_search", "tx.hash = 5", 0, true, tx)
+	run("block_search", "block.height = 3.0", 1, false, blk)
+	run("block_search", "block.height = 3.5", 0, false, blk)
+	run("tx_search", "tx.height > 6", 0, false, tx) // the tx is at height 3, whatever attribute it emitted
+	run("tx_search", "tx.height >= 7 AND tx.height <= 7", 0, false, tx)
+	run("tx_search", "tx.height >= 3 AND tx.height <= 3", 1, false, tx)
+	lib.Case("TestRegressReservedKeysInTxIndex", lib.FP("reserved-keys"), true, fmt.Sprintf("wrong:%v", bad != ""))
+	if bad != "" {
+		t.Fatalf("reserved keys in the kv indexers:\n%s", bad)
+	}
+}
+
+// TestRegressNumberMatching: a subscription's numeric condition against signed and fractional values, and against
+// a list of values in which an unparsable one comes first.
+func TestRegressNumberMatching(t *testing.T) {
+	bad := ""
+	for _, c := range []struct {
+		q      string
+		values []string
+		want   bool
+	}{
+		{"x.n > 0", []string{"-5"}, false},
+		{"x.n < 0", []string{"-5"}, true},
+		{"x.n = 5", []string{"5.9"}, false},
+		{"x.n > 5", []string{"5.5"}, true},
+		{"x.n <= 5", []string{"5.9"}, false},
+		{"x.n > 5", []string{"7", "abc"}, true},
+		{"x.n > 5", []string{"abc", "7"}, true},
+		{"x.n > 7.5", []string{"abc", "8"}, true},
+	} {
+		got, err := query.MustParse(c.q).Matches(map[string][]string{"x.n": c.values})
+		if got != c.want || (c.want && err != nil) {
+			bad += fmt.Sprintf("  %s on %q: matches=%v err=%v, want %v\n", c.q, c.values, got, err, c.want)
+		}
+	}
+	lib.Case("TestRegressNumberMatching", lib.FP("number-matching"), true, fmt.Sprintf("wrong:%v", bad != ""))
+	if bad != "" {
+		t.Fatalf("numeric conditions of subscriptions:\n%s", bad)
+	}
+}
